@@ -179,7 +179,7 @@ ParseTill(st, path, dst) ==     \* path = blocks still to connect, bottom up
                  LET dead == Descendants(b, st.known)
                      kn == st.known \ dead
                      kd == [p \in DOMAIN st.kids |-> IF p \in dead THEN <<>> ELSE SelectSeq(st.kids[p], LAMBDA x : x \notin dead)]
-                     st2 == [st EXCEPT !.known = kn, !.kids = kd, !.failed = Append(@, b)]
+                     st2 == [st EXCEPT !.known = kn, !.kids = kd, !.failed = Append(@, b), !.fviol = @ \cup r.viol]
                      far == Farthest(0, kd)[1]
                  IN IF far = st2.tip THEN st2 ELSE MoveTo(st2, far)
 
@@ -191,7 +191,7 @@ MoveTo(st, dst) ==
         path == SubSeq(full, Len(ChainTo(fork)) + 1, Len(full))
     IN ParseTill(st2, path, dst)
 
-Cur == [known |-> known, kids |-> kids, tip |-> tip, utxo |-> utxo, undo |-> undo, failed |-> <<>>, conn |-> <<>>]
+Cur == [known |-> known, kids |-> kids, tip |-> tip, utxo |-> utxo, undo |-> undo, failed |-> <<>>, conn |-> <<>>, fviol |-> {}]
 
 Deliver(b) ==
     /\ b \notin known
@@ -224,7 +224,7 @@ Deliver(b) ==
             IN /\ known' = st1.known /\ kids' = st1.kids /\ tip' = st1.tip
                /\ utxo' = st1.utxo /\ undo' = st1.undo
                /\ last' = [accepted |-> (st1.tip = b) \/ (b \in st1.known /\ Work(b) <= Work(tip)),
-                           later |-> FALSE, viol |-> {}]
+                           later |-> FALSE, viol |-> st1.fviol]   \* rules broken by the blocks a failed reorganisation ran into
 
 \* client/wallet: LoadBalancesFromUtxo / Disable
 BalEnable == /\ AllowBal /\ ~balOn /\ balOn' = TRUE /\ UNCHANGED <<known, kids, tip, utxo, undo, nDeliv, last>>
